@@ -297,14 +297,19 @@ def _run_enum_chunk(args):
     prop = mod.PROP
     prop.setup()
     acc = _Acc()
+    nfail = 0
     for spec in specs:
         try:
             res = prop.execute(spec)
         except Exception:
             return ('harness', traceback.format_exc())
         acc.record(spec, res, prop.max_samples)
-        if not res.ok and acc.failure is None:
-            acc.failure = (spec, res.clause, res.msg)
+        if not res.ok:
+            nfail += 1
+            if acc.failure is None:
+                acc.failure = (spec, res.clause, res.msg)
+            if nfail >= 3:
+                break   # the verdict is settled; do not grind through a broken tree
     return ('ok', acc)
 
 
